@@ -33,7 +33,10 @@ var (
 	mixed   = model.Bin{Op: "+", L: model.Lit{V: 1}, R: model.Lit{V: "a"}}
 	oob     = model.Idx{X: model.Var{Name: "arr"}, I: model.Lit{V: 99}}
 	unknown = model.Var{Name: "nosuchname"}
-	faults  = []model.Expr{boom, boom, boom, divZero, mixed, oob, unknown}
+	// a helper whose error WRAPS an unknown-identifier error (what a nested render that hits an unset name returns):
+	// it is a failing helper, not "an unknown identifier used as a condition or operand", so it is never tolerated
+	wrapunk = model.Call{Fn: "wrapunk"}
+	faults  = []model.Expr{boom, boom, boom, divZero, mixed, oob, unknown, wrapunk, wrapunk}
 )
 
 func run(r *vk.Run, prog []model.Node, partials map[string][]model.Node, class string) *vk.Fail {
@@ -57,7 +60,13 @@ func run(r *vk.Run, prog []model.Node, partials map[string][]model.Node, class s
 	defer r.Watch("fault", c)()
 	mcount, pcount := 0, 0
 	mk := func(cnt *int) map[string]model.Helper {
-		return progs.Helpers(map[string]model.Helper{"boom": func(a []interface{}) (interface{}, error) { *cnt++; return nil, sentinel }})
+		return progs.Helpers(map[string]model.Helper{
+			"boom": func(a []interface{}) (interface{}, error) { *cnt++; return nil, sentinel },
+			"wrapunk": func(a []interface{}) (interface{}, error) {
+				*cnt++
+				return nil, fmt.Errorf("nested render failed: %w: %w", sentinel, &plush.ErrUnknownIdentifier{ID: "inner"})
+			},
+		})
 	}
 	want := model.RunWith(prog, progs.Data(), mk(&mcount), partials)
 	if want.Unspec != "" {
@@ -74,7 +83,7 @@ func run(r *vk.Run, prog []model.Node, partials map[string][]model.Node, class s
 	if want.Err != "" {
 		nt = full
 		class += "/fails"
-	} else if strings.Contains(full, "boom()") || strings.Contains(full, "nosuchname") || strings.Contains(full, "1 / 0") {
+	} else if strings.Contains(full, "boom()") || strings.Contains(full, "wrapunk()") || strings.Contains(full, "nosuchname") || strings.Contains(full, "1 / 0") {
 		nt = full
 		class += "/fault-not-reached"
 	}
@@ -174,7 +183,7 @@ func partialsFor(f model.Expr) map[string][]model.Node {
 	}
 }
 
-const rule = "(E) each of 7 faults - a helper returning a sentinel error (x3 weight in R), 1/0, 1 + \"a\", arr[99], an unknown identifier - planted at each of 61 syntactic positions (either operand of all 13 operators, short-circuited operands, !, emitted, silent tag, let / assignment value, if / else-if condition (reached and not reached), taken / untaken / else branch body, silent if body, loop iterable / body / second iteration / empty loop / silent loop, array element, hash value, index, argument of Go helper / user function, user function body (called / not called), block of a block helper, contentFor block rendered / never rendered by contentOf, contentOf / partial data value, partial body, nested partial body, after 750 bytes of output). (R) random well-formed programs over all constructs in which about one leaf in seven is a fault. Oracle: the statement's own (failing helper invoked => non-nil error, errors.Is(err, original), empty output) plus, in both directions, the reference interpreter: the render fails exactly when the reference says a fault is evaluated outside the tolerated positions (unknown identifier as condition or operand of ! == != && ||), and otherwise renders the reference output. Non-trivial = the program contains a fault (reached or not); distinct by template + partial texts."
+const rule = "(E) each of 6 faults - a helper returning a sentinel error, 1/0, 1 + \"a\", arr[99], an unknown identifier, a helper whose error WRAPS an unknown-identifier error (as a nested render does) - planted at each of 61 syntactic positions (either operand of all 13 operators, short-circuited operands, !, emitted, silent tag, let / assignment value, if / else-if condition (reached and not reached), taken / untaken / else branch body, silent if body, loop iterable / body / second iteration / empty loop / silent loop, array element, hash value, index, argument of Go helper / user function, user function body (called / not called), block of a block helper, contentFor block rendered / never rendered by contentOf, contentOf / partial data value, partial body, nested partial body, after 750 bytes of output). (R) random well-formed programs over all constructs in which about one leaf in seven is a fault. Oracle: the statement's own (failing helper invoked => non-nil error, errors.Is(err, original), empty output) plus, in both directions, the reference interpreter: the render fails exactly when the reference says a fault is evaluated outside the tolerated positions (unknown identifier as condition or operand of ! == != && ||), and otherwise renders the reference output. Non-trivial = the program contains a fault (reached or not); distinct by template + partial texts."
 
 func setup(t *testing.T) *vk.Run {
 	r := vk.Start(t, "C05", rule,
@@ -204,7 +213,7 @@ func setup(t *testing.T) *vk.Run {
 
 func TestReplay(t *testing.T) { setup(t).ReplayEnv() }
 
-var faultNames = []string{"boom()", "1/0", `1+"a"`, "arr[99]", "unknown identifier"}
+var faultNames = []string{"boom()", "1/0", `1+"a"`, "arr[99]", "unknown identifier", "helper error wrapping an unknown-identifier error"}
 
 func TestProp(t *testing.T) {
 	r := setup(t)
@@ -212,7 +221,7 @@ func TestProp(t *testing.T) {
 	r.ReplayCommitted()
 
 	var cells int64
-	for fi, f := range []model.Expr{boom, divZero, mixed, oob, unknown} {
+	for fi, f := range []model.Expr{boom, divZero, mixed, oob, unknown, wrapunk} {
 		pos := positions(f)
 		var keys []string
 		for k := range pos {
@@ -226,7 +235,7 @@ func TestProp(t *testing.T) {
 			cells++
 		}
 	}
-	r.Subspace("5 fault kinds x 61 syntactic positions", cells, true)
+	r.Subspace("6 fault kinds x 61 syntactic positions", cells, true)
 
 	r.Rapid("programs", r.Pick(6000, 80000), func(t *rapid.T) *vk.Fail {
 		g := progs.New(t, progs.Options{MaxDepth: 3, FaultRate: rapid.SampledFrom([]int{4, 7, 15}).Draw(t, "rate"), Faults: faults})
